@@ -71,7 +71,11 @@ Conform(rec) ==
 
 \* manifests that pass validation in this step, by the specification's Validate on the OBSERVED pre-state
 ValOf(rec) ==
-  LET victim(M) == IF rec.k \in 1..Len(Victims(M)) THEN Victims(M)[rec.k] ELSE 0
+  LET \* the request whose hostname check the step is SAID to have interrupted counts as such only if it was
+      \* OBSERVED to be answered ErrNotRunning; otherwise it went through validation like the others
+      victim(M) == IF /\ rec.k \in 1..Len(Victims(M))
+                      /\ <<M.requests[Victims(M)[rec.k]].r, "notrunning">> \in Range(rec.sends)
+                   THEN Victims(M)[rec.k] ELSE 0
       MS == [Target EXCEPT !.requests = Append(@, [r |-> nsub + 1, mf |-> rec.arg])]
       MF == [Cur EXCEPT !.fetch = "idle", !.data = rec.arg]
   IN IF rec.name \in {"Submit", "SubmitSw"} /\ svc = "run" /\ mgr # "stopping" THEN ValidateV(Eff(MS), victim(MS)).val
